@@ -1,25 +1,38 @@
 // Package sched is the seeded scheduler. Tasks are real goroutines, but
 // exactly one holds the run token at any instant; the token moves only inside
-// Hook (a yield point reached by the running task) or when a task finishes.
+// Hook (a yield point reached by the running task), when a task finishes, or -
+// in MayBlock mode - when the running task blocks inside the library on a real
+// synchronisation primitive (mutex, once, wait group, channel, condition
+// variable), which a monitor detects from the goroutine's wait status.
 // Every decision comes from the run's PRNG (generation) or from an explicit
 // switch list (replay), so one seed is one execution.
 package sched
 
 import (
 	"fmt"
+	"runtime"
 	"runtime/debug"
+	"strconv"
+	"strings"
+	"sync"
+	"sync/atomic"
+	"time"
 
 	"verifsim/prng"
 )
 
 // Switch is one scheduling decision that changed the running task.
 type Switch struct {
-	Step uint64 `json:"step"` // value of the step counter when the decision was taken
-	To   int    `json:"to"`
-	Exit bool   `json:"exit,omitempty"` // taken because the running task finished
-	From int    `json:"from"`
-	Site uint32 `json:"site,omitempty"`
+	Step    uint64 `json:"step"` // value of the step counter when the decision was taken
+	To      int    `json:"to"`
+	Exit    bool   `json:"exit,omitempty"`    // taken because the running task finished
+	Blocked bool   `json:"blocked,omitempty"` // taken because the running task blocked inside the library
+	From    int    `json:"from"`
+	Site    uint32 `json:"site,omitempty"`
 }
+
+// Forced reports whether the decision was forced (not a preemption).
+func (s Switch) Forced() bool { return s.Exit || s.Blocked }
 
 // Spec selects a policy and its parameters.
 type Spec struct {
@@ -35,11 +48,25 @@ type ErrStepCap struct{ Steps uint64 }
 
 func (e ErrStepCap) Error() string { return fmt.Sprintf("step cap exceeded (%d)", e.Steps) }
 
+// ErrDeadlock reports that every unfinished task is blocked inside the library.
+type ErrDeadlock struct {
+	Step    uint64
+	Blocked []int
+	Status  []string
+}
+
+func (e ErrDeadlock) Error() string {
+	return fmt.Sprintf("deadlock at step %d: tasks %v are blocked inside the library (%s) and no task can run", e.Step, e.Blocked, strings.Join(e.Status, "; "))
+}
+
 type task struct {
-	wake chan struct{}
-	done bool
-	prio int
-	fn   func()
+	wake    chan struct{}
+	done    bool
+	blocked bool // blocked inside the library on a real primitive
+	parked  bool // waiting for the token on wake
+	prio    int
+	fn      func()
+	goid    uint64
 }
 
 // S is one scheduler instance (one run).
@@ -62,14 +89,28 @@ type S struct {
 	replayIx int
 	UseList  bool
 
+	// MayBlock enables the blocked-task monitor (the library contains
+	// synchronisation primitives or goroutines).
+	MayBlock bool
+	mu       sync.Mutex
+	progress atomic.Uint64
+	nBlocked atomic.Int32
+	// inSched counts task goroutines that are executing scheduler code and are
+	// not parked: while it is non-zero a "blocked" wait status may be the
+	// scheduler's own locking, so the monitor draws no conclusion.
+	inSched  atomic.Int32
+	byGoid   map[uint64]*task
+	Deadlock *ErrDeadlock
+	BlockedN uint64 // number of times a task blocked inside the library
+
 	Switches  []Switch
 	InOpSw    uint64 // switches taken at a yield (not at task exit)
 	OnStep    func(site uint32)
 	OnSwitch  func(from, to int, site uint32)
 	doneCh    chan struct{}
+	doneOnce  sync.Once
 	Aborted   error
 	PerTask   []uint64 // steps executed by each task
-	spawned   int
 	SpawnedN  int
 	TaskPanic any
 }
@@ -77,7 +118,7 @@ type S struct {
 // New creates a scheduler. estSteps is the expected total number of steps
 // (from the solo pre-pass), used to place PCT change points.
 func New(spec Spec, rng *prng.R, estSteps uint64, siteIn func(uint32) bool) *S {
-	s := &S{spec: spec, rng: rng, siteIn: siteIn, MaxStep: 50_000_000, Hash: 0xcbf29ce484222325}
+	s := &S{spec: spec, rng: rng, siteIn: siteIn, MaxStep: 50_000_000, Hash: 0xcbf29ce484222325, byGoid: map[uint64]*task{}}
 	if spec.Policy == "pct" {
 		if estSteps < 2 {
 			estSteps = 2
@@ -85,7 +126,6 @@ func New(spec Spec, rng *prng.R, estSteps uint64, siteIn func(uint32) bool) *S {
 		for i := 0; i < spec.D; i++ {
 			s.changeAt = append(s.changeAt, 1+uint64(rng.U64()%estSteps))
 		}
-		// sort ascending
 		for i := 1; i < len(s.changeAt); i++ {
 			for j := i; j > 0 && s.changeAt[j] < s.changeAt[j-1]; j-- {
 				s.changeAt[j], s.changeAt[j-1] = s.changeAt[j-1], s.changeAt[j]
@@ -101,18 +141,30 @@ func (s *S) Cur() int { return s.cur }
 // Active reports whether a concurrent phase is in progress.
 func (s *S) Active() bool { return s.active }
 
+func (s *S) lock() {
+	if s.MayBlock {
+		s.mu.Lock()
+	}
+}
+
+func (s *S) unlock() {
+	if s.MayBlock {
+		s.mu.Unlock()
+	}
+}
+
+// runnable lists the tasks that could be given the token.
 func (s *S) runnable() []int {
 	var r []int
 	for i, t := range s.tasks {
-		if !t.done {
+		if !t.done && !t.blocked {
 			r = append(r, i)
 		}
 	}
 	return r
 }
 
-// pick chooses the next task among the runnable ones other than cur (or
-// including cur when allowCur).
+// pickOther chooses the next task among the runnable ones other than exclude.
 func (s *S) pickOther(exclude int) int {
 	r := s.runnable()
 	var c []int
@@ -145,22 +197,39 @@ func (s *S) pickOther(exclude int) int {
 	}
 }
 
-func (s *S) fromList(exit bool) (int, bool) {
+const (
+	kindHook = iota
+	kindExit
+	kindBlocked
+)
+
+func kindOf(sw Switch) int {
+	switch {
+	case sw.Exit:
+		return kindExit
+	case sw.Blocked:
+		return kindBlocked
+	}
+	return kindHook
+}
+
+// fromList looks up the recorded decision for the current step and kind.
+func (s *S) fromList(kind int) (int, bool) {
 	for s.replayIx < len(s.Replay) && (s.Replay[s.replayIx].Step < s.Step) {
 		s.replayIx++
 	}
 	for s.replayIx < len(s.Replay) && s.Replay[s.replayIx].Step == s.Step {
 		sw := s.Replay[s.replayIx]
-		if sw.Exit != exit {
-			if !exit && sw.Exit {
-				// an exit decision recorded for this step belongs to a later moment
+		if kindOf(sw) != kind {
+			if kind == kindHook {
+				// a forced decision recorded for this step belongs to a later moment
 				return 0, false
 			}
 			s.replayIx++
 			continue
 		}
 		s.replayIx++
-		if sw.To >= 0 && sw.To < len(s.tasks) && !s.tasks[sw.To].done {
+		if sw.To >= 0 && sw.To < len(s.tasks) && !s.tasks[sw.To].done && !s.tasks[sw.To].blocked {
 			return sw.To, true
 		}
 		return 0, false
@@ -171,7 +240,7 @@ func (s *S) fromList(exit bool) (int, bool) {
 // decide returns the task that should run after this yield.
 func (s *S) decide(site uint32) int {
 	if s.UseList {
-		if to, ok := s.fromList(false); ok {
+		if to, ok := s.fromList(kindHook); ok {
 			return to
 		}
 		return s.cur
@@ -208,10 +277,22 @@ func (s *S) decide(site uint32) int {
 	return s.cur
 }
 
-// Hook is the yield callback. It runs on the goroutine of the running task.
+// Hook is the yield callback. It runs on the goroutine of the running task
+// (or, in MayBlock mode, of a task that has just been unblocked and must now
+// wait for the token).
 func (s *S) Hook(site uint32) {
 	if !s.active {
 		return
+	}
+	if s.MayBlock {
+		s.progress.Add(1)
+		s.inSched.Add(1)
+		defer s.inSched.Add(-1)
+		if s.nBlocked.Load() > 0 {
+			if !s.slowEnter() {
+				return
+			}
+		}
 	}
 	s.Step++
 	s.PerTask[s.cur]++
@@ -232,31 +313,184 @@ func (s *S) Hook(site uint32) {
 	}
 }
 
+// slowEnter runs at a yield while some task is flagged blocked. A task that was
+// blocked and has been released by the running task arrives here concurrently
+// with it: it registers as runnable and parks until it is given the token. The
+// running task itself waits until every flagged task has settled (still
+// blocked, or parked), so that the set of runnable tasks at each decision is a
+// function of the program, not of timing. It reports false when the run ended
+// while the caller was parked.
+func (s *S) slowEnter() bool {
+	id := goid()
+	s.mu.Lock()
+	if !s.active {
+		s.mu.Unlock()
+		return false
+	}
+	if cur := s.tasks[s.cur]; cur.goid != id {
+		t := s.byGoid[id]
+		if t == nil {
+			s.mu.Unlock()
+			return false
+		}
+		if t.blocked {
+			t.blocked = false
+			s.nBlocked.Add(-1)
+		}
+		t.parked = true
+		s.mu.Unlock()
+		s.inSched.Add(-1)
+		<-t.wake
+		s.inSched.Add(1)
+		s.mu.Lock()
+		t.parked = false
+		ok := s.active
+		s.mu.Unlock()
+		if !ok {
+			runtime.Goexit()
+		}
+		if s.nBlocked.Load() == 0 {
+			return true
+		}
+	} else {
+		s.mu.Unlock()
+	}
+	s.settle()
+	return true
+}
+
+// settle waits until every task flagged blocked is either really blocked
+// (wait status of its goroutine) or has parked itself.
+func (s *S) settle() {
+	for {
+		s.mu.Lock()
+		var pend []*task
+		for _, t := range s.tasks {
+			if t.blocked {
+				pend = append(pend, t)
+			}
+		}
+		live := s.active
+		s.mu.Unlock()
+		if len(pend) == 0 || !live {
+			return
+		}
+		st := goroutineStatus()
+		stable := true
+		for _, t := range pend {
+			s.mu.Lock()
+			flagged := t.blocked
+			s.mu.Unlock()
+			if !flagged {
+				continue
+			}
+			if !isBlockedStatus(st[t.goid]) {
+				stable = false
+			}
+		}
+		if stable {
+			return
+		}
+		time.Sleep(20 * time.Microsecond)
+	}
+}
+
 func (s *S) switchTo(next int, site uint32, exit bool) {
 	prev := s.cur
 	s.Switches = append(s.Switches, Switch{Step: s.Step, To: next, Exit: exit, From: prev, Site: site})
 	if s.OnSwitch != nil {
 		s.OnSwitch(prev, next, site)
 	}
+	s.lock()
 	s.cur = next
+	if !exit {
+		s.tasks[prev].parked = true
+	}
+	s.unlock()
+	if s.MayBlock {
+		s.progress.Add(1)
+	}
 	s.tasks[next].wake <- struct{}{}
 	if !exit {
+		if s.MayBlock {
+			s.inSched.Add(-1)
+		}
 		<-s.tasks[prev].wake
+		if s.MayBlock {
+			s.inSched.Add(1)
+		}
+		s.lock()
+		s.tasks[prev].parked = false
+		ok := s.active
+		s.unlock()
+		if !ok {
+			runtime.Goexit()
+		}
+	}
+}
+
+func (s *S) finish() {
+	s.doneOnce.Do(func() {
+		s.lock()
+		s.active = false
+		s.unlock()
+		close(s.doneCh)
+	})
+}
+
+func (s *S) deadlock(st map[uint64]string) {
+	d := &ErrDeadlock{Step: s.Step}
+	for i, t := range s.tasks {
+		if t.blocked && !t.done {
+			d.Blocked = append(d.Blocked, i)
+			d.Status = append(d.Status, fmt.Sprintf("task %d: %s", i, st[t.goid]))
+		}
+	}
+	s.Deadlock = d
+	if s.Aborted == nil {
+		s.Aborted = *d
 	}
 }
 
 func (s *S) exitCurrent() {
+	if s.MayBlock {
+		s.progress.Add(1)
+		s.inSched.Add(1)
+		defer s.inSched.Add(-1)
+	}
+	if s.MayBlock && s.nBlocked.Load() > 0 {
+		// a task released from a library primitive may get here without having
+		// passed a yield: it must hold the token before it may leave
+		if !s.slowEnter() {
+			return
+		}
+	}
+	s.lock()
 	s.tasks[s.cur].done = true
+	s.unlock()
+	if s.MayBlock && s.nBlocked.Load() > 0 {
+		s.settle()
+	}
+	s.lock()
 	r := s.runnable()
+	anyBlocked := false
+	for _, t := range s.tasks {
+		if t.blocked && !t.done {
+			anyBlocked = true
+		}
+	}
+	s.unlock()
 	if len(r) == 0 {
-		s.active = false
-		close(s.doneCh)
+		if anyBlocked {
+			s.deadlock(goroutineStatus())
+		}
+		s.finish()
 		return
 	}
 	var next int
 	ok := false
 	if s.UseList {
-		next, ok = s.fromList(true)
+		next, ok = s.fromList(kindExit)
 	}
 	if !ok {
 		if s.UseList {
@@ -268,10 +502,24 @@ func (s *S) exitCurrent() {
 	s.switchTo(next, 0, true)
 }
 
-func (s *S) start(t *task, idx int) {
+func (s *S) start(t *task) {
+	ready := make(chan struct{})
 	go func() {
 		debug.SetPanicOnFault(true)
+		t.goid = goid()
+		s.mu.Lock()
+		s.byGoid[t.goid] = t
+		t.parked = true
+		s.mu.Unlock()
+		close(ready)
 		<-t.wake
+		s.lock()
+		t.parked = false
+		ok := s.active
+		s.unlock()
+		if !ok {
+			return
+		}
 		defer s.exitCurrent()
 		defer func() {
 			if r := recover(); r != nil {
@@ -285,6 +533,7 @@ func (s *S) start(t *task, idx int) {
 		}()
 		t.fn()
 	}()
+	<-ready
 }
 
 // Spawn adds a task while the system runs (library-created goroutine).
@@ -293,36 +542,109 @@ func (s *S) Spawn(f func()) {
 		go f()
 		return
 	}
+	if s.MayBlock {
+		s.progress.Add(1)
+		s.inSched.Add(1)
+		defer s.inSched.Add(-1)
+	}
 	t := &task{wake: make(chan struct{}), fn: f, prio: 0}
 	if s.spec.Policy == "pct" && !s.UseList {
 		t.prio = 1 + s.rng.N(1<<20)
 	}
+	s.lock()
 	s.tasks = append(s.tasks, t)
 	s.PerTask = append(s.PerTask, 0)
 	s.SpawnedN++
-	s.start(t, len(s.tasks)-1)
+	s.unlock()
+	s.start(t)
+}
+
+// monitor detects that the running task has blocked inside the library and
+// moves the token on its behalf.
+func (s *S) monitor() {
+	var last uint64
+	idle := 0
+	for {
+		time.Sleep(100 * time.Microsecond)
+		s.mu.Lock()
+		if !s.active {
+			s.mu.Unlock()
+			return
+		}
+		p := s.progress.Load()
+		if p != last {
+			last, idle = p, 0
+			s.mu.Unlock()
+			continue
+		}
+		idle++
+		if idle < 2 {
+			s.mu.Unlock()
+			continue
+		}
+		t := s.tasks[s.cur]
+		if t.parked || t.done || t.blocked || s.inSched.Load() != 0 {
+			s.mu.Unlock()
+			continue
+		}
+		st := goroutineStatus()
+		if s.progress.Load() != p || s.inSched.Load() != 0 || !isBlockedStatus(st[t.goid]) {
+			s.mu.Unlock()
+			continue
+		}
+		// the running task is blocked inside the library
+		t.blocked = true
+		s.nBlocked.Add(1)
+		s.BlockedN++
+		s.mu.Unlock()
+		s.settle() // tasks it may have released just before blocking
+		s.mu.Lock()
+		r := s.runnable()
+		if len(r) == 0 {
+			s.deadlock(st)
+			s.mu.Unlock()
+			s.finish()
+			return
+		}
+		next, ok := 0, false
+		if s.UseList {
+			next, ok = s.fromList(kindBlocked)
+			if !ok {
+				next = r[0]
+			}
+		} else {
+			next = s.pickOther(s.cur)
+		}
+		prev := s.cur
+		s.Switches = append(s.Switches, Switch{Step: s.Step, To: next, Blocked: true, From: prev})
+		s.cur = next
+		s.progress.Add(1)
+		last, idle = s.progress.Load(), 0
+		s.mu.Unlock()
+		s.tasks[next].wake <- struct{}{}
+	}
 }
 
 // Run executes the tasks to completion under the policy and returns when all
-// (including spawned ones) have finished.
+// (including spawned ones) have finished, or when no task can run any more.
 func (s *S) Run(fns []func()) {
 	s.tasks = nil
 	s.PerTask = make([]uint64, len(fns))
 	s.doneCh = make(chan struct{})
-	for i, f := range fns {
+	for _, f := range fns {
 		t := &task{wake: make(chan struct{}), fn: f}
 		if s.spec.Policy == "pct" && !s.UseList {
 			t.prio = 1 + s.rng.N(1<<20)
 		}
 		s.tasks = append(s.tasks, t)
-		s.start(t, i)
+		s.start(t)
 	}
 	if len(fns) == 0 {
 		return
 	}
 	first := 0
 	if s.UseList {
-		if to, ok := s.fromList(true); ok {
+		if to, ok := s.fromList(kindExit); ok {
 			first = to
 		}
 	} else if s.spec.Policy == "pct" {
@@ -337,6 +659,104 @@ func (s *S) Run(fns []func()) {
 	s.active = true
 	s.cur = first
 	s.Switches = append(s.Switches, Switch{Step: 0, To: first, Exit: true, From: -1})
+	if s.MayBlock {
+		go s.monitor()
+	}
 	s.tasks[first].wake <- struct{}{}
 	<-s.doneCh
+	// release tasks that are still parked so that their goroutines end
+	s.lock()
+	var parked []*task
+	for _, t := range s.tasks {
+		if t.parked && !t.done {
+			parked = append(parked, t)
+		}
+	}
+	s.unlock()
+	for _, t := range parked {
+		select {
+		case t.wake <- struct{}{}:
+		case <-time.After(10 * time.Millisecond):
+		}
+	}
+}
+
+// ---------------------------------------------------------------------------
+// goroutine introspection
+
+var stackBuf = make([]byte, 1<<20)
+var stackMu sync.Mutex
+
+func goid() uint64 {
+	var b [64]byte
+	n := runtime.Stack(b[:], false)
+	// "goroutine 123 [running]:"
+	f := strings.Fields(string(b[:n]))
+	if len(f) < 2 {
+		return 0
+	}
+	id, _ := strconv.ParseUint(f[1], 10, 64)
+	return id
+}
+
+// goroutineStatus returns the wait status of every goroutine.
+func goroutineStatus() map[uint64]string {
+	stackMu.Lock()
+	defer stackMu.Unlock()
+	n := runtime.Stack(stackBuf, true)
+	for n == len(stackBuf) && len(stackBuf) < 64<<20 {
+		stackBuf = make([]byte, 2*len(stackBuf))
+		n = runtime.Stack(stackBuf, true)
+	}
+	out := map[uint64]string{}
+	txt := string(stackBuf[:n])
+	for len(txt) > 0 {
+		i := strings.Index(txt, "goroutine ")
+		if i < 0 {
+			break
+		}
+		if i > 0 && txt[i-1] != '\n' {
+			txt = txt[i+10:]
+			continue
+		}
+		line := txt[i:]
+		if j := strings.IndexByte(line, '\n'); j >= 0 {
+			line = line[:j]
+		}
+		txt = txt[i+len(line):]
+		// goroutine N [status, ...]:
+		rest := line[len("goroutine "):]
+		sp := strings.IndexByte(rest, ' ')
+		if sp < 0 {
+			continue
+		}
+		id, err := strconv.ParseUint(rest[:sp], 10, 64)
+		if err != nil {
+			continue
+		}
+		lb, rb := strings.IndexByte(rest, '['), strings.LastIndexByte(rest, ']')
+		if lb < 0 || rb < lb {
+			continue
+		}
+		st := rest[lb+1 : rb]
+		if c := strings.IndexByte(st, ','); c >= 0 {
+			st = st[:c]
+		}
+		out[id] = st
+	}
+	return out
+}
+
+// isBlockedStatus reports whether a goroutine wait status means "blocked on a
+// synchronisation primitive" (as opposed to running, runnable, in a system
+// call, sleeping or being preempted).
+func isBlockedStatus(st string) bool {
+	switch {
+	case st == "":
+		return false
+	case strings.HasPrefix(st, "chan "), strings.HasPrefix(st, "select"),
+		strings.HasPrefix(st, "sync."), strings.HasPrefix(st, "semacquire"):
+		return true
+	}
+	return false
 }
